@@ -111,6 +111,11 @@ Corruptions ==
           ELSE {})
   \cup (IF "layout" \in DOMAIN Cfg.reset_function
           THEN {Desc("set_value", <<"reset_function">>, "layout", v, "reject") : v \in {"[2]", "[0,2]", "[2,2,2]", "[1.5,2]"}}
+               \cup {Desc("set_value", <<"reset_function">>, "layout", "[1,2]", "accept")}
+          ELSE {})
+  \* valid non-square shapes (height and width must not be confused anywhere on the way)
+  \cup (IF "shape" \in DOMAIN Cfg.reset_function
+          THEN {Desc("set_value", <<"reset_function">>, "shape", v, "accept") : v \in {"[7,9]", "[9,7]"}}
           ELSE {})
   \* colours: unknown names, duplicates, empty lists
   \cup UNION {{Desc("set_value", <<sp>>, "colors", v, "reject") : v \in {"[\"NONE\",\"PURPLE\"]", "[\"RED\",\"RED\"]", "[]", "[1]"}}
